@@ -15,6 +15,7 @@ import (
 	"github.com/xelaj/mtproto/zverif/hs"
 	"github.com/xelaj/mtproto/zverif/ref/authsrv"
 	"github.com/xelaj/mtproto/zverif/ref/tlw"
+	"github.com/xelaj/mtproto/zverif/sched"
 	"github.com/xelaj/mtproto/zverif/sess"
 	"github.com/xelaj/mtproto/zverif/vr"
 	"github.com/xelaj/mtproto/zverif/vrand"
@@ -131,6 +132,11 @@ func nextPrime(n uint64) uint64 {
 func main() {
 	run := vr.New("C06", "exploration")
 	freepass.MaybeReplay(run)
+	sched.OnSpin = func(frame string) {
+		run.Violation("hangs|cpu-spin|"+frame, "the key exchange never completes: a client thread has been computing inside "+frame+" for 120 s without reaching any synchronisation point (a loop that does not end); the exploration stops here", map[string]any{"fault": "cpu-spin", "frame": frame})
+		run.Truncated("stopped at a non-terminating computation in the library")
+		run.Finish()
+	}
 	run.Rule("complete key exchanges of the real client against reference server R3 (default schedule under the controlled scheduler), followed by the first encrypted request: (a) server alphabets pq(4) x RSA key(3) x group(2) x server_nonce leading-zero class(3) x g_a class(2) x inner-data padding(16) x fingerprint list(3) at <=2 deviations; (b) every client seed in [0,K) of the owned random stream; (c) each of nonce, new_nonce, RSA ciphertext, auth key g^ab, new_nonce_hash1 forced to 1 and 2 leading zero bytes, and the initial salt forced to 1, 2 and 8 leading zero bytes (nonces sharing a prefix) (client draws forced through the owned seam; server secret chosen adaptively after learning g_b); a committed seed table for g_b; non-trivial = the exchange reached dh_gen_ok")
 	run.Assume("reference server R3 (harness/ref/authsrv) with committed RSA-2048 test keys; the client's random draws (nonces, DH exponent, Pollard-rho draws, padding) come from the owned deterministic stream", "leading-zero class coverage is measured and reported (class table), not assumed")
 	r := &runner{run: run, table: classTable{}}
